@@ -48,10 +48,24 @@ def handle (v : Variant) (line : String) : String :=
       | none => id ++ "\tbad-input(no module)\t-\t-"
       | some p =>
         let model := " ".intercalate ([0, 1, 2, 3].map (levelOut v p))
+        -- the implementation's own answer replayed: remove the definitions it reports, compare the traces
+        let implBad : List String := match Sexp.parseAll impl.toList with
+          | some lv => lv.filterMap (fun s => match s with
+            | .list (.atom o :: ds) =>
+              let locs := ds.filterMap (fun d => match d with
+                | .list [.atom l, .atom c, _] => match l.toNat?, c.toNat? with
+                  | some l, some c => some (⟨l, c⟩ : Loc)
+                  | _, _ => none
+                | _ => none)
+              if traceL (dropL locs p) != traceL p then some o else none
+            | _ => none)
+          | none => []
         let t0 := traceL p
         let bad := [1, 2, 3].filter (fun n => traceL (optimize v n p) != t0)
         let verdict :=
           if !(okL p) then "viol:effect-in-default-value"
+          else if !implBad.isEmpty then
+            "viol:impl-drops-effect(" ++ (implBad.headD "") ++ " before=" ++ locsStr (traceL p) ++ ")"
           else if bad.isEmpty then "ok"
           else "viol:trace-changed(o" ++ toString (bad.headD 0) ++ " before=" ++ locsStr t0 ++ " after=" ++ locsStr (traceL (optimize v (bad.headD 0) p)) ++ ")"
         let ink := if !bad.isEmpty && traceL (optimize fixed 1 p) == t0 then "C12-legacy-is-impure" else "0"
